@@ -87,6 +87,9 @@ type spec struct {
 	// operations only happen once it has passed on every link: a handshake deadline must not
 	// outlive the handshake
 	connTimeout time.Duration
+	// oldStore: these nodes run on a database written by the previous release (their v2 blocks above
+	// the require height are stored in the previous record layout) and reopened
+	oldStore []int
 }
 
 func edgesOf(topo string, n int) [][2]int {
@@ -285,6 +288,13 @@ func coreSpecs() []spec {
 		lateEdges: []int{0}, connTimeout: time.Second, flip: []bool{true, false, true}})
 	add(spec{name: "core-idle-link-then-pool-outline", mainLen: 7, branches: []branch{m(7), m(7), m(7)}, topo: "star",
 		late: []lateOp{{node: 1, n: 1, pool: true}}, connTimeout: 1500 * time.Millisecond})
+	// a node whose database was written by the previous release (block records above the require
+	// height in the previous layout): it holds the heaviest chain and the others must learn it; it
+	// is behind and must extend its chain; it is on a lighter fork and must reorganise across them
+	add(spec{name: "core-oldstore-heaviest", mainLen: 24, branches: []branch{m(24), m(0), f(13, 4, 2*time.Second)}, topo: "line", oldStore: []int{0}})
+	add(spec{name: "core-oldstore-heaviest-star", mainLen: 18, branches: []branch{m(12), m(18), m(15), f(11, 3, 2*time.Second)}, topo: "star", oldStore: []int{1, 3}, flip: []bool{true, false, true}})
+	add(spec{name: "core-oldstore-behind", mainLen: 26, branches: []branch{m(16), m(26)}, topo: "line", oldStore: []int{0}})
+	add(spec{name: "core-oldstore-must-reorg", mainLen: 26, branches: []branch{f(13, 6, 2*time.Second), m(26), m(14)}, topo: "ring", oldStore: []int{0, 2}})
 	// small request sizes (every node started with the same WithMaxSendBlocks)
 	add(spec{name: "core-sendcap-3", mainLen: 16, branches: []branch{m(16), m(2), f(9, 4, 2*time.Second)}, topo: "line", sendCap: 3})
 	add(spec{name: "core-sendcap-1", mainLen: 14, branches: []branch{f(3, 5, 2*time.Second), m(14)}, topo: "line", sendCap: 1})
@@ -368,6 +378,13 @@ func randomSpec(rng *vh.RNG, i int) spec {
 		}
 		if rng.Bool() {
 			s.announce = "once"
+		}
+	}
+	if s.bootstrap < 0 && rng.Chance(1, 5) {
+		// one or two nodes run on a database written by the previous release
+		s.oldStore = []int{rng.Intn(n)}
+		if rng.Bool() {
+			s.oldStore = append(s.oldStore, rng.Intn(n))
 		}
 	}
 	// staged specs: sometimes with a short connect timeout that passes before the second stage
@@ -553,6 +570,13 @@ func runSpec(s spec, ip string) *vh.Case {
 		opts = append(opts, syncer.WithConnectTimeout(s.connTimeout))
 		c.Tags = append(c.Tags, "connect-timeout:short")
 	}
+	isOld := map[int]bool{}
+	for _, i := range s.oldStore {
+		if i != s.bootstrap {
+			isOld[i] = true
+		}
+	}
+	oldRecords := 0
 	nodes := make([]*nodeRec, n)
 	for i := range chains {
 		var nd *netx.Node
@@ -574,11 +598,34 @@ func runSpec(s spec, ip string) *vh.Case {
 				}
 			}
 			base = main.Blocks[:s.bootAt]
+		} else if isOld[i] {
+			var k int
+			var err error
+			nd, k, err = nt.NewOldStoreNode(chains[i], fmt.Sprintf("%s.%d", ip, i+1), opts...)
+			if err != nil {
+				c.Oracle("reopen-error", "node %d: a store with %d block records in the previous layout could not be prepared / reopened: %v", i, k, err)
+				for _, nr := range nodes[:i] {
+					nr.n.Close()
+				}
+				return c
+			}
+			if k > 0 {
+				oldRecords += k
+			}
+			if want := (types.ChainIndex{Height: uint64(len(chains[i])), ID: nt.Genesis.ID()}); len(chains[i]) > 0 {
+				want.ID = chains[i][len(chains[i])-1].ID()
+				if nd.CM.Tip() != want {
+					c.Oracle("restart-changed-chain", "node %d reopened on its store (%d block records in the previous layout) is on %v, it was on %v", i, k, nd.CM.Tip(), want)
+				}
+			}
 		} else {
 			nd = nt.NewNode(fmt.Sprintf("%s.%d", ip, i+1), opts...)
 			nd.Load(chains[i])
 		}
 		nodes[i] = &nodeRec{n: nd, trace: traceWork(nd), start: netx.WorkOf(nd.CM.TipState().TotalWork), base: base}
+	}
+	if oldRecords > 0 {
+		c.Tags = append(c.Tags, "store:old-format-block-records")
 	}
 	for _, l := range reg.Lines {
 		c.Op(l, "ok")
